@@ -3,7 +3,8 @@
 Histories are lists of JSON ops (so that a replay file is self-contained):
   {"form":"set",   "key":[part…], "ell":[p,q]|None, "bare":bool, "npint":bool, "vshape":[…], "vflat":[…], "vlist":bool}
       part = int | [start, stop, step] (null = None); `key` is what the model gets (shorter keys are
-      padded by the model as normalize_index does); with "ell" the real key is key[:p] + (...,) + key[len-q:]
+      padded by the model as normalize_index does); with "ell" the real key is key[:p] + (...,) + key[len-q:];
+      "bare": a one-entry key is written without the tuple (d[3] rather than d[3,])
   {"form":"fancy", "idxs":[[…]…], "bare":bool, "asarray":bool, "vshape":[…], "vflat":[…], "vlist":bool}
   {"form":"mask",  "mask":[bool…] (row-major), "vshape":[…], "vflat":[…], "vlist":bool}
 
@@ -33,9 +34,9 @@ TRUSTED = [
     "Lean 4 kernel; axioms propext, Classical.choice, Quot.sound only (audited per theorem each run)",
     "tie T1: Gen.dokSliceBounds (the slice-bound computation inside DOK._setitem) and the _slicing.py fragments "
     "(replace_none, posify_index, clip_slice, check_index) are regenerated from the source each run; the theorems are stated over them",
-    "tie T2: hand model SparseV.Model.Dok (dict as insertion-ordered list, normalize_index on int/slice keys, the _setitem recursion "
-    "with its value descent, _fancy_setitem, _fancy_getitem, element reads) compared with sparse.DOK after every step of every history "
-    "on dict keys in insertion order, values, nnz and error class by this run",
+    "tie T2: hand model SparseV.Model.Dok (dict as insertion-ordered list, the dispatch of __setitem__, normalize_index on int/slice keys and on "
+    "index lists, the _setitem recursion with its value descent, _fancy_setitem, mask -> nonzero -> index lists, _fancy_getitem, element reads) "
+    "compared with sparse.DOK after every step of every history on dict keys in insertion order, values, nnz and error class by this run",
     "the dense specification SparseV.Spec.Assign is compared with NumPy after every step by this run (leg B)",
     "NumPy is the reference for leg C; dtypes and float behaviour are outside the theorems; reads through slices go through COO "
     "(property C02) and are only compared differentially",
@@ -52,14 +53,6 @@ def py_part(p, npint=False):
     if isinstance(p, list):
         return slice(*p)
     return np.int64(p) if npint else int(p)
-
-
-def is_bare(op):
-    """the model's `bare` flag: the real key is not a plain tuple of ints/slices — it is a single entry
-    written without a tuple, or it contains an Ellipsis (which the harness expands for the model)"""
-    if op.get("ell"):
-        return True
-    return bool(op.get("bare")) and len(op["key"]) == 1
 
 
 def py_key(op):
@@ -92,7 +85,7 @@ def py_value(op, dtype):
 def model_op(op):
     form = op["form"]
     if form == "set":
-        return ["set", is_bare(op), op["key"], op["vshape"], op["vflat"]]
+        return ["set", op["key"], op["vshape"], op["vflat"]]
     if form == "fancy":
         return ["fancy", op["idxs"], op["vshape"], op["vflat"]]
     if form == "mask":
@@ -105,8 +98,9 @@ def model_op(op):
 
 
 # ------------------------------------------------------------------------------------------------
-# generators (inside the property's grammar; the regions of the known findings are reached with
-# their natural frequency plus a small boost)
+# generators (inside the property's grammar; the corners that used to be wrong — negative step with
+# start 0, tuples of ints on 1-d, the empty tuple, negative list entries, empty lists, one-element
+# values, masks — get a small boost)
 # ------------------------------------------------------------------------------------------------
 
 def rand_shape(rng):
@@ -159,7 +153,7 @@ def rand_set(rng, shape, fill):
         full = nd
     else:
         full = nd if rng.random() < 0.75 else int(rng.integers(1, nd + 1))
-        if rng.random() < 0.01:
+        if rng.random() < 0.02:
             full = 0   # the empty tuple: d[()] = value assigns to every element
         axes = list(range(full))
     key = [[None, None, None]] * full
@@ -168,7 +162,7 @@ def rand_set(rng, shape, fill):
         key[ax] = rand_int_index(rng, shape[ax]) if rng.random() < 0.45 else rand_slice_json(rng, shape[ax])
     if ell is None and rng.random() < 0.01:   # one index too many: NumPy raises IndexError
         key = key + [rand_int_index(rng, shape[-1])]
-    bare = bool(rng.random() < (0.9 if nd == 1 else 0.5))   # on 1-d a tuple of ints takes the index-list route
+    bare = bool(rng.random() < 0.5)
     op = {"form": "set", "key": key, "ell": ell, "bare": bare, "npint": bool(rng.random() < 0.15)}
     try:
         grid = list(np.empty(shape)[py_key(op)].shape)
@@ -189,17 +183,24 @@ def rand_listvalue(rng, fill, n):
 
 
 def rand_fancy(rng, shape, fill, form="fancy"):
+    """one integer list per axis: entries anywhere in [-dim, dim) (repeats happen), sometimes empty lists,
+    5% of the ops carry an entry outside the axis (NumPy: IndexError)"""
     nd = len(shape)
     n = int(rng.choice([0, 1, 1, 2, 2, 3, 4])) if rng.random() < 0.3 else int(rng.integers(1, 5))
-    wild = rng.random() < 0.05
-    if any(d == 0 for d in shape) and not wild:
+    oob = rng.random() < 0.05
+    if any(d == 0 for d in shape) and not oob:
         n = 0
     idxs = []
     for d in shape:
-        if wild:
-            idxs.append([rand_int_index(rng, d) for _ in range(n)])
+        if d == 0:
+            idxs.append([int(rng.choice([0, -1, 1])) for _ in range(n)])
+        elif rng.random() < 0.5:
+            idxs.append([int(v) for v in rng.integers(0, d, size=n)])
         else:
-            idxs.append([int(v) for v in rng.integers(0, max(d, 1), size=n)])
+            idxs.append([int(v) for v in rng.integers(-d, d, size=n)])
+    if oob and n:
+        ax = int(rng.integers(nd))
+        idxs[ax][int(rng.integers(n))] = int(rng.choice([shape[ax], shape[ax] + 1, -shape[ax] - 1, -shape[ax] - 3]))
     op = {"form": form, "idxs": idxs, "bare": bool(nd == 1 and rng.random() < 0.5), "asarray": bool(rng.random() < 0.3)}
     if form == "fancy":
         op["vshape"], op["vflat"] = rand_listvalue(rng, fill, n)
@@ -219,14 +220,12 @@ def rand_history(rng, shape, fill, n):
     ops = []
     for _ in range(n):
         r = rng.random()
-        if r < 0.72:
+        if r < 0.68:
             ops.append(rand_set(rng, shape, fill))
-        elif r < 0.97:
+        elif r < 0.90:
             ops.append(rand_fancy(rng, shape, fill))
-        elif all(d > 0 for d in shape):
-            ops.append(rand_mask(rng, shape, fill))
         else:
-            ops.append(rand_set(rng, shape, fill))
+            ops.append(rand_mask(rng, shape, fill))
     return ops
 
 
@@ -265,11 +264,11 @@ def read_ops(rng, shape, fill):
     """reads issued after a step: element, basic key (slices), integer lists"""
     res = []
     if all(d > 0 for d in shape):
-        res.append({"form": "get", "key": [int(rng.integers(-d, d)) for d in shape]})
+        res.append({"form": "get", "key": [int(rng.integers(-d - 1, d + 1)) if rng.random() < 0.03 else int(rng.integers(-d, d)) for d in shape]})
     if rng.random() < 0.5:
         k = rand_set(rng, shape, fill)
         res.append({"form": "read", "key": k["key"], "ell": k["ell"], "bare": k["bare"], "npint": k["npint"]})
-    if rng.random() < 0.25 and all(d > 0 for d in shape):
+    if rng.random() < 0.25:
         res.append(rand_fancy(rng, shape, fill, form="getfancy"))
     return res
 
@@ -286,6 +285,7 @@ def run_history(ctx, hist, dtype=np.int64, reads_rng=None, tag="rand"):
     legc_alive = True
     for i, op in enumerate(ops):
         key, val = py_key(op), py_value(op, dtype)
+        before = dok_state(d)
         e_d = apply(d, key, val)
         b = a_spec.copy()
         e_s = apply(b, key, val)
@@ -300,18 +300,21 @@ def run_history(ctx, hist, dtype=np.int64, reads_rng=None, tag="rand"):
                "c": [], "reads": []}
         mops.append(model_op(op))
         if legc_alive:
-            tainted = impl.canonical_problem(d) is not None
-            rec["tainted"] = tainted
             msg = None
             if e_a is not None:
                 if e_d is None:
                     msg = f"numpy raises {type(e_a).__name__} but the assignment was accepted"
                 elif impl.err_class(e_d) not in ("value", "index", "type"):
                     msg = f"numpy raises {type(e_a).__name__}; DOK raised {type(e_d).__name__}: {str(e_d)[:100]}"
+                elif dok_state(d) != before:
+                    msg = f"numpy raises {type(e_a).__name__} and so does DOK, but the dict changed before it raised"
             elif e_d is not None:
                 msg = f"raised {type(e_d).__name__}: {str(e_d)[:120]} (numpy accepts the assignment)"
             else:
-                msg = same_dense(d, a)
+                msg = impl.canonical_problem(d)
+                if msg:
+                    msg = "dict not canonical: " + msg
+                msg = msg or same_dense(d, a)
                 if msg is None:
                     nz = int(np.count_nonzero(a != fill))
                     if d.nnz != nz:
@@ -327,8 +330,6 @@ def run_history(ctx, hist, dtype=np.int64, reads_rng=None, tag="rand"):
                     a = d.todense().copy()
                 except Exception:  # noqa: BLE001
                     legc_alive = False
-                if tainted:
-                    legc_alive = False   # a key outside the shape is in the dict: nothing later in this history is attributable
             if legc_alive and reads_rng is not None:
                 for rop in read_ops(reads_rng, list(shape), fill):
                     rec["reads"].append(do_read(d, a, rop, fill, dtype))
@@ -383,8 +384,7 @@ def check_batch(ctx, batch, family):
             op = rec["op"]
             form = op["form"]
             case = {"shape": hist["shape"], "fill": hist["fill"], "ops": hist["ops"][: rec["i"] + 1], "step": rec["i"],
-                    "form": form, "lean_excluded": bool(m.get("excluded")), "lean_wf": bool(m.get("wf")),
-                    "tainted": bool(rec.get("tainted"))}
+                    "form": form, "lean_wf": bool(m.get("wf"))}
             if "ok" in rec["dok"] and rec["dok"]["ok"]["keys"]:
                 nontriv = True
             # leg A: representation after the step
@@ -407,16 +407,12 @@ def check_batch(ctx, batch, family):
                 if rform in ("get", "getfancy"):
                     mm = mres[pos]
                     pos += 1
-                    # an element read converts to COO first; with a key outside the shape in the dict that
-                    # conversion fails, which the model of reads does not describe
-                    if mm["model"] != rd["dok"] and not (rform == "get" and case["tainted"]):
+                    if mm["model"] != rd["dok"]:
                         ctx.fail("A", f"model:{rform}", rcase, f"model {mm['model']} implementation {rd['dok']}")
                 if rd["msg"]:
                     ctx.fail("C", f"read:{rform}", rcase, rd["msg"], finding=findings.classify(PID, f"read:{rform}", rcase, rd["msg"]))
             ctx.count("steps")
             ctx.count(f"steps_{form}")
-            if m.get("excluded"):
-                ctx.count("steps_in_known_regions")
         ctx.case(f"{family}:{len(hist['shape'])}d", {"shape": hist["shape"], "fill": hist["fill"], "ops": hist["ops"]}, nontrivial=nontriv)
 
 
@@ -468,7 +464,7 @@ def leg_raw_setitem(ctx, rng, quick):
 
 
 # ------------------------------------------------------------------------------------------------
-# corpus: the witnesses of the known findings, replayed every run
+# corpus: the witnesses of the repaired defects (KNOWN_FINDINGS.txt `fixed:` lines), replayed every run: they must pass
 # ------------------------------------------------------------------------------------------------
 
 def S(key, x, **kw):
@@ -476,47 +472,40 @@ def S(key, x, **kw):
 
 
 CORPUS = [
-    # (finding id or None, history)
-    ("F-dok-negstep-start0", {"shape": [5], "fill": 0, "ops": [S([[0, None, -1]], 7)]}),
-    ("F-dok-negstep-start0", {"shape": [5], "fill": 0, "ops": [S([[-10, 0, -1]], 7)]}),
-    ("F-dok-negstep-start0", {"shape": [2, 3], "fill": 2, "ops": [S([[None, None, None], [-3, None, -2]], 1)]}),
-    ("F-dok-boolmask", {"shape": [3], "fill": 0, "ops": [{"form": "mask", "mask": [True, False, True], "shape": [3], "vshape": [], "vflat": [7], "vlist": False}]}),
-    ("F-dok-boolmask", {"shape": [2, 2], "fill": 0, "ops": [{"form": "mask", "mask": [True, False, False, True], "shape": [2, 2], "vshape": [2], "vflat": [7, 8], "vlist": True}]}),
-    ("F-dok-fancy-raw-index", {"shape": [3], "fill": 0, "ops": [
+    # (what the history used to show, history)
+    ("fixed 5f937a6 negstep-start0", {"shape": [5], "fill": 0, "ops": [S([[0, None, -1]], 7)]}),
+    ("fixed 5f937a6 negstep-start0", {"shape": [5], "fill": 0, "ops": [S([[-10, 0, -1]], 7)]}),
+    ("fixed 5f937a6 negstep-start0", {"shape": [2, 3], "fill": 2, "ops": [S([[None, None, None], [-3, None, -2]], 1)]}),
+    ("fixed e3a3b01 boolmask", {"shape": [3], "fill": 0, "ops": [{"form": "mask", "mask": [True, False, True], "shape": [3], "vshape": [], "vflat": [7], "vlist": False}]}),
+    ("fixed e3a3b01 boolmask", {"shape": [2, 2], "fill": 0, "ops": [{"form": "mask", "mask": [True, False, False, True], "shape": [2, 2], "vshape": [2], "vflat": [7, 8], "vlist": True}]}),
+    ("fixed 6ad05a9 fancy-raw-index", {"shape": [3], "fill": 0, "ops": [
         {"form": "fancy", "idxs": [[2]], "bare": True, "asarray": False, "vshape": [], "vflat": [5], "vlist": False},
         {"form": "fancy", "idxs": [[-1]], "bare": True, "asarray": False, "vshape": [], "vflat": [7], "vlist": False}]}),
-    ("F-dok-fancy-raw-index", {"shape": [3], "fill": 0, "ops": [
+    ("fixed 6ad05a9 fancy-raw-index", {"shape": [3], "fill": 0, "ops": [
         {"form": "fancy", "idxs": [[7]], "bare": True, "asarray": False, "vshape": [], "vflat": [5], "vlist": False}]}),
-    ("F-dok-1d-int-tuple", {"shape": [3], "fill": 0, "ops": [S([2], 5), S([-1], 7)]}),
-    ("F-dok-1d-int-tuple", {"shape": [3], "fill": 0, "ops": [S([1, 2], 7)]}),
-    ("F-dok-empty-tuple-key", {"shape": [], "fill": 0, "ops": [S([], 4)]}),
-    ("F-dok-empty-tuple-key", {"shape": [3], "fill": 0, "ops": [S([], 4)]}),
-    ("F-dok-empty-tuple-key", {"shape": [2, 2], "fill": 2, "ops": [S([], 4, vshape=[2], vflat=[1, 3])]}),
-    ("F-dok-fancy-empty", {"shape": [3], "fill": 0, "ops": [
+    ("fixed 51373e1 1d-int-tuple", {"shape": [3], "fill": 0, "ops": [S([2], 5), S([-1], 7)]}),
+    ("fixed 51373e1 1d-int-tuple", {"shape": [3], "fill": 0, "ops": [S([1, 2], 7)]}),
+    ("fixed 51373e1 empty-tuple-key", {"shape": [], "fill": 0, "ops": [S([], 4)]}),
+    ("fixed 51373e1 empty-tuple-key", {"shape": [3], "fill": 0, "ops": [S([], 4)]}),
+    ("fixed 51373e1 empty-tuple-key", {"shape": [2, 2], "fill": 2, "ops": [S([], 4, vshape=[2], vflat=[1, 3])]}),
+    ("fixed 6ad05a9 fancy-empty", {"shape": [3], "fill": 0, "ops": [
         {"form": "fancy", "idxs": [[]], "bare": True, "asarray": False, "vshape": [], "vflat": [5], "vlist": False}]}),
-    ("F-dok-fancy-bcast1", {"shape": [2, 3], "fill": 0, "ops": [
+    ("fixed daad09e fancy-bcast1", {"shape": [2, 3], "fill": 0, "ops": [
         {"form": "fancy", "idxs": [[0, 1], [2, 1]], "bare": False, "asarray": False, "vshape": [1], "vflat": [5], "vlist": True}]}),
     # a clean 3-step history with overwrite and delete (the non-vacuity example of the Lean file)
-    (None, {"shape": [2, 3], "fill": 0, "ops": [S([[None, None, None], 1], 5), S([0, [None, None, -1]], 0, vshape=[3], vflat=[1, 0, 3]), S([-1, -2], 0)]}),
+    ("non-vacuity example of Props/C12.lean", {"shape": [2, 3], "fill": 0, "ops": [S([[None, None, None], 1], 5), S([0, [None, None, -1]], 0, vshape=[3], vflat=[1, 0, 3]), S([-1, -2], 0)]}),
 ]
 
 
 def leg_corpus(ctx):
-    batch, want = [], []
-    for fid, hist in CORPUS:
+    batch = []
+    for label, hist in CORPUS:
         hist = json.loads(json.dumps(hist))
         req, recs = run_history(ctx, hist)
         batch.append((hist, req, recs))
-        want.append((fid, any(r["c"] for r in recs)))
-    n0 = len(ctx.failures)
+        if any(r["c"] for r in recs):
+            ctx.notes.setdefault("corpus_regressions", []).append(label)
     check_batch(ctx, batch, "corpus")
-    seen = {f.get("finding") for f in ctx.failures[n0:] if f["leg"] == "C"}
-    for (fid, failed), (_, hist) in zip(want, CORPUS):
-        if fid is None and failed:
-            continue  # already reported by check_batch as an unclassified leg-C failure
-        if fid is not None and not failed:
-            ctx.notes.setdefault("witness_no_longer_fails", []).append(fid)
-    ctx.notes["corpus_findings_seen"] = sorted(x for x in seen if x)
 
 
 # ------------------------------------------------------------------------------------------------
@@ -541,6 +530,22 @@ def axis_classes(dim):
     return cands, list(classes.values())
 
 
+def extra_ops(shape, fill):
+    """a few assignments of the other key forms for the exhaustive histories: the empty tuple, a tuple of one
+    negative int (1-d), index lists with negative / repeated entries and a one-element value, masks"""
+    F = lambda idxs, vs, vf: {"form": "fancy", "idxs": idxs, "bare": False, "asarray": False, "vshape": vs, "vflat": vf, "vlist": False}  # noqa: E731
+    n = int(np.prod(shape))
+    m1 = [bool((j * 5 + 1) % 3 == 0) for j in range(n)]
+    m2 = [bool(j % 2 == 0) for j in range(n)]
+    M = lambda m, vs, vf: {"form": "mask", "mask": m, "shape": list(shape), "vshape": vs, "vflat": vf, "vlist": False}  # noqa: E731
+    ops = [S([], 1), S([], fill),
+           F([[-1, 0] for _ in shape], [], [2]), F([[0, -d] for d in shape], [2], [1, fill]), F([[d - 1, -1] for d in shape], [1], [fill]),
+           M(m1, [], [2]), M(m2, [sum(m2)], [(j % 2) + (0 if fill else 1) for j in range(sum(m2))])]
+    if len(shape) == 1:
+        ops.append(S([-1], 1))
+    return ops
+
+
 def leg_exhaustive(ctx):
     plans = [([3], 3), ([2, 3], 2), ([2, 2, 2], 1)]
     for shape, depth in plans:
@@ -559,7 +564,7 @@ def leg_exhaustive(ctx):
                     continue
                 if grid and int(np.prod(grid)) > 0:
                     ops1.append(S(k, 0, vshape=grid, vflat=[(j % 3) + (0 if fill else 1) - (1 if j % 4 == 0 else 0) for j in range(int(np.prod(grid)))]))
-            rep_ops = [S(k, x) for k in reps for x in vals]
+            rep_ops = [S(k, x) for k in reps for x in vals] + extra_ops(shape, fill)
             hists = [[o] for o in ops1]
             if depth >= 2:
                 hists += [list(t) for t in itertools.product(rep_ops, repeat=2)]
@@ -585,8 +590,8 @@ def run(ctx):
     ctx.assumptions = [
         "NumPy's item assignment is the specification (leg C); the Lean dense specification is validated against it (leg B)",
         "element values are small integers (int64, or float64 holding integers): equality with the fill value is exact",
-        "the theorems cover scalar and array values on integer/slice keys and integer lists inside the stated regions; "
-        "reads through slices and to_coo are compared differentially only",
+        "the theorems cover every assignment form of the property's grammar (no excluded region) and element reads; "
+        "reads through slices / index lists and to_coo are compared differentially only",
     ]
     core.prove(ctx, PID, uses=USES)
     rng = gen.rng_for(ctx.seed, PID)
@@ -595,18 +600,15 @@ def run(ctx):
     leg_histories(ctx, rng, 1500 if ctx.quick else 6000, 30)
     if not ctx.quick:
         leg_exhaustive(ctx)
-    ctx.notes["partial"] = {
-        "setitem_refines_partial": "Excluded_negStepStart0 (negative step, normalised start 0, extent > 1)",
-        "step_refines_partial": "Excluded = negStepStart0 | tupleRoute (1-d, tuple of ints other than one in-range int) | emptyTupleKey | "
-                                "fancyRawIndex | fancyEmpty | fancyBcast1 | every mask",
-    }
     ctx.cov["rule"] = (
         "histories of 1..30 assignments on shapes of rank 1-3 (extents 0..5, size <= 60), fills {0,2}, keys: ints (negative, 4% out of range), "
-        "slices with steps in ±{1..5} and None parts, short keys, Ellipsis, one integer list per axis (bare list on 1-d, ndarray or list), boolean masks; "
-        "values: scalar (30% the fill value) or arrays broadcastable to the selection; after EVERY step model vs DOK on dict keys in insertion order, "
-        "values, nnz, error class (leg A), Lean dense spec vs NumPy (leg B), DOK vs NumPy on todense, nnz, to_coo, reads (leg C); a history is "
-        "non-trivial when some step leaves a stored element; distinct by content hash; thorough adds all histories of length <= 3 on (3,), <= 2 on (2,3), "
-        "1 on (2,2,2) over one representative key per behaviour class (parts in [-4,4] ∪ {None}) x values {fill,1,2}")
+        "slices with steps in ±{1..5} and None parts, short keys incl. the empty tuple, one index too many (1%), Ellipsis, one integer list per axis "
+        "(entries in [-dim, dim), repeats, empty lists, 5% with an out-of-range entry; bare list on 1-d, ndarray or list), boolean masks; "
+        "values: scalar (30% the fill value) or arrays broadcastable to the selection (one-element values for lists/masks included); after EVERY step "
+        "model vs DOK on dict keys in insertion order, values, nnz, error class (leg A), Lean dense spec vs NumPy (leg B), DOK vs NumPy on todense, nnz, "
+        "canonical dict, to_coo, reads (leg C); a history is non-trivial when some step leaves a stored element; distinct by content hash; thorough adds "
+        "all histories of length <= 3 on (3,), <= 2 on (2,3), 1 on (2,2,2) over one representative int/slice key per behaviour class "
+        "(parts in [-4,4] ∪ {None}) x values {fill,1,2} plus eight index-list/mask/empty-tuple ops")
 
 
 def replay(ctx, path):
